@@ -246,7 +246,11 @@ pub mod kernels {
     }
         };
     }
-    c07_k_intersection!(c07_q_k_intersection, 2, 3);
+    // (lines 2 bits, offset 3 bits: a single 12-minute SAT call, the longest job of the quick check by far;
+    // the quick tier keeps offsets of 2 bits, the 3-bit form is thorough)
+    c07_k_intersection!(c07_q_k_intersection, 2, 2);
+    #[cfg(feature = "thorough")]
+    c07_k_intersection!(c07_t_k_intersection_d3, 2, 3);
     #[cfg(feature = "thorough")]
     c07_k_intersection!(c07_t_k_intersection_b3, 3, 4);
 }
